@@ -6,7 +6,7 @@ INSTR = -fsanitize=thread --param tsan-instrument-func-entry-exit=0
 REPO_CXXFLAGS = -O1 -g -DNDEBUG -fno-omit-frame-pointer $(INSTR) -I$(REPO)/include -w
 HARN_CXXFLAGS = -O1 -g -fno-omit-frame-pointer $(INSTR) -I$(B)/shadow -I$(REPO)/include -Isim -fno-access-control -w
 SIM_CXXFLAGS = -O2 -g -fno-omit-frame-pointer -Isim -Wall -Wno-unused-function
-LDFLAGS = -no-pie -lpthread -lrt -ldl
+LDFLAGS = -no-pie -rdynamic -lpthread -lrt -ldl
 
 REPO_SRCS := $(wildcard $(REPO)/src/*.cpp) $(wildcard $(REPO)/src/*/*.cpp)
 REPO_OBJS := $(patsubst $(REPO)/src/%.cpp,$(B)/repo/%.o,$(REPO_SRCS))
